@@ -95,9 +95,10 @@ func init() {
 			defer a.runtime.releaseScope()
 
 			a.runtime.blocks = t.processedBlocks
+			// like Execute and include: render the root of the whole extends chain
 			root := t.Root
-			if t.extends != nil {
-				root = t.extends.Root
+			for extended := t.extends; extended != nil; extended = extended.extends {
+				root = extended.Root
 			}
 
 			if a.NumOfArguments() > 1 {
@@ -125,9 +126,10 @@ func init() {
 			a.runtime.Writer = ioutil.Discard
 
 			a.runtime.blocks = t.processedBlocks
+			// like Execute and include: render the root of the whole extends chain
 			root := t.Root
-			if t.extends != nil {
-				root = t.extends.Root
+			for extended := t.extends; extended != nil; extended = extended.extends {
+				root = extended.Root
 			}
 
 			if a.NumOfArguments() > 1 {
